@@ -135,7 +135,15 @@ pub fn expect_built(sc: &Scenario, rep: &mut crate::report::RunReport, build: &R
         return;
     }
     match build {
-        Ok(()) => rep.probe("built"),
+        Ok(()) => {
+            rep.probe("built");
+            if sc.builder_order >= 6 {
+                rep.probe("built_with_repeated_setter_calls");
+            }
+            if sc.builder_order % 6 != 0 {
+                rep.probe("built_with_permuted_setter_calls");
+            }
+        }
         Err(e) => {
             if wellformed(sc) {
                 let kind: String = e.chars().take_while(|c| c.is_ascii_alphanumeric() || *c == '_').collect();
